@@ -344,17 +344,23 @@ func Buy(buyer sdk.AccAddress, tag string, specs ...BuySpec) E {
 				bid = big.NewInt(1)
 			}
 			qty := sp.Qty
+			// the stored quantity is read with the reference parser; if it is not a decimal numeral
+			// (a violation the monitors report) the derived spellings are not applicable
+			oq, oerr := ref.Parse(o.Quantity)
+			if oerr != nil && (qty == "+eps" || qty == "=padded" || qty == "=sci") {
+				return nil
+			}
 			switch qty {
 			case "":
 				qty = o.Quantity
 			case "+eps":
-				qty = fmtRat(ref.Add(ref.MustRat(o.Quantity), ref.MustRat(Eps)))
+				qty = fmtRat(ref.Add(oq.R, ref.MustRat(Eps)))
 			case "=padded":
 				// the whole remaining quantity, spelled with six decimal places (trailing zeros)
-				qty = ref.MustRat(o.Quantity).FloatString(6)
+				qty = oq.R.FloatString(6)
 			case "=sci":
 				// the whole remaining quantity in scientific notation (value x 10 with exponent -1)
-				qty = fmtRat(ref.Mul(ref.MustRat(o.Quantity), ref.MustRat("10"))) + "e-1"
+				qty = fmtRat(ref.Mul(oq.R, ref.MustRat("10"))) + "e-1"
 			}
 			bo := &markettypes.MsgBuyDirect_Order{SellOrderId: id, Quantity: qty,
 				BidPrice: &sdk.Coin{Denom: den, Amount: sdk.NewIntFromBigInt(bid)}, DisableAutoRetire: sp.DAR}
